@@ -54,6 +54,22 @@ def run(chk):
             p0 = max(0, v + r.choice([0, 0, 0, 1, -1]))
             buf = bytearray(r.choice(b" .") for _ in range(p0 + len(strs[0]) + r.below(4)))
             buf[p0:p0 + len(strs[0])] = strs[0]
+        if i % 10 == 7:
+            # aimed at the required-strings analysis (a rule none of whose strings matched is not evaluated when the compiler decided
+            # that it needs a string): quantifiers that are not constants and evaluate to 0 at scan time, on data without the strings
+            g = condgen.Gen(r.fork(), 0, 3)
+            e = r.choice([("ext", r.below(3)), ("sub", ("fs",), ("fs",)), ("cnt", r.below(condgen.NSTR)), ("band", ("fs",), ("lit", 0))])
+            if e[0] == "ext":
+                exts[e[1]] = 0
+            t = r.choice([("of", ("num", e), g.strset()), ("ofin", ("num", e), g.strset(), ("lit", 0), ("lit", 9)),
+                          ("ofat", ("num", e), g.strset(), ("lit", 0))])
+            if r.chance(1, 2):
+                t = ("and", t, ("cmp", "ge", ("fs",), ("lit", 0)))
+            elif r.chance(1, 3):
+                t = ("or", ("f",), t)
+            trees, names = [t], ["r0"]
+            src = "rule r0 { strings: %s condition: %s }\n" % (decl, condgen.Printer(names).raw(t))
+            buf = bytearray(r.choice(b" .") for _ in range(r.choice([0, 1, 7])))
         buf = bytes(buf)
         cmds = ["newcompiler"] + ["defi ext%d %d" % (j, 0) for j in range(3)] + ["add " + hx(src.encode()), "getrules", "scanner 0"] + \
                ["sdefi ext%d %d" % (j, exts[j]) for j in range(3)] + ["scan " + hx(buf)]
@@ -95,7 +111,19 @@ def run(chk):
                 opkinds[m.group(1)] = opkinds.get(m.group(1), 0) + 1
         if impl != mr:
             k = next(i for i in range(len(trees)) if impl[i] != mr[i])
-            if condgen.has_undefined_quant_risk(trees[k]) or any(condgen.has_undefined_quant_risk(t) for t in trees[:k]):
+            # the known finding is an undefined QUANTIFIER: only when some non-literal quantifier of the rules evaluated so far really is
+            # undefined on this input (the model is asked; quantifiers that mention loop variables cannot be asked at top level)
+            qs = [q for t in trees[:k + 1] for q in condgen.quant_exprs(t)]
+            undefined_q = False
+            if qs:
+                if any(condgen.mentions_var(q) for q in qs):
+                    undefined_q = True
+                else:
+                    dq = "cond %s %d %s 3 %s %d %s" % (hx(buf), len(strs), " ".join(hx(s_) for s_ in strs), " ".join(str(e) for e in exts),
+                                                    len(qs), " ".join(condgen.sexp(("defi", q)) for q in qs))
+                    dres, _ = vlib.run_lines(model, [dq], timeout=600)
+                    undefined_q = "0" in (dres[0] if dres else "0")
+            if undefined_q:
                 chk.violation("undefined-quantifier", "a quantifier that evaluates to undefined is treated as 'all' (rule r%d): implementation %s, documented %s"
                               % (k, impl, mr), replay)
             else:
